@@ -93,6 +93,38 @@ def conv_cases(tier, rng):
                 c.add(b"RSET\r\n")
         P.markers(c, 1)
         cases.append(c.case(seg=rng.choice(["one", "line", "byte", "rand"]), rng=rng) + "\tEXPECT=" + ";".join(expect))
+    # a backend that hands the reader to io.Copy (which prefers an io.WriterTo of the reader), at once or after sniffing the first k
+    # octets with one Read (rsz = 32768 + k, see the harness): short lines with dots around the sniff boundary, and lines whose CR is the
+    # last octet of a full 4096-octet buffer (no line limit)
+    for k in range(0, 10):
+        for body in ([b"abc", b".hidden", b"..two", b"x"], [b"ab", b"", b".d", b".", b"tail"][:3] + [b"tail"], [b"a" * 7, b".b"]):
+            for lm in (0, 1):
+                c = g.Conv(dict(lmtp=lm, maxline=0))
+                c.add((b"LHLO" if lm else b"EHLO") + b" cli.example\r\n", NS="ok")
+                c.add(b"MAIL FROM:<s@x.org>\r\n", MAIL="ok"); c.add(b"RCPT TO:<r@x.org>\r\n", RCPT="ok")
+                c.add(b"DATA\r\n"); c.add(b"".join(l + b"\r\n" for l in body) + b".\r\n", DATA=g.ddec(rsz=32768 + k))
+                P.markers(c, 1)
+                cases.append(c.case(seg=rng.choice(["one", "line", "rand"]), rng=rng) + "\tEXPECT=0:" + hx(unstuff_spec(body)))
+    for n in (4094, 4095, 4096, 8191):
+        body = [b"y" * n, b".hidden", b"z"]
+        c = g.Conv(dict(maxline=0))
+        c.add(b"EHLO cli.example\r\n", NS="ok"); c.add(b"MAIL FROM:<s@x.org>\r\n", MAIL="ok"); c.add(b"RCPT TO:<r@x.org>\r\n", RCPT="ok")
+        c.add(b"DATA\r\n"); c.add(b"".join(l + b"\r\n" for l in body) + b".\r\n", DATA=g.ddec(rsz=32768))
+        P.markers(c, 1)
+        cases.append(c.case(seg="line", rng=rng) + "\tEXPECT=0:" + hx(unstuff_spec(body)))
+    # the reader of a connection that has been upgraded: a message in plaintext, STARTTLS, a message inside TLS
+    for lm in (0, 1):
+        for inj in (b"", b"MAIL FROM:<bait@x>\r\n"):
+            c = g.Conv(dict(tls="avail", lmtp=lm))
+            hello = (b"LHLO" if lm else b"EHLO") + b" cli.example\r\n"
+            c.add(hello, NS="ok"); c.add(b"MAIL FROM:<s0@x.org>\r\n", MAIL="ok"); c.add(b"RCPT TO:<r@x.org>\r\n", RCPT="ok")
+            c.add(b"DATA\r\n"); c.add(b"one\r\n..dot\r\n.\r\n", DATA=g.ddec())
+            c.starttls(inj)
+            c.add(hello, NS="ok"); c.add(b"MAIL FROM:<s1@x.org>\r\n", MAIL="ok"); c.add(b"RCPT TO:<r@x.org>\r\n", RCPT="ok")
+            c.add(b"DATA\r\n"); c.add(b"two\r\n.x\r\n.\r\n", DATA=g.ddec())
+            P.markers(c, 1)
+            for seg in ("line", "one"):
+                cases.append(c.case(seg=seg, rng=rng) + "\tEXPECT=0:" + hx(b"one\r\n.dot\r\n") + ";1:" + hx(b"two\r\nx\r\n"))
     return cases
 
 
